@@ -128,3 +128,4 @@ package alloctxn
 //@   ensures listsValid(atxn) && listsStable(atxn)
 //@   ensures [F5-recorded] blkno != 0 ==> len(atxn.freeBnums) == old(len(atxn.freeBnums)) + 1 && atxn.freeBnums[old(len(atxn.freeBnums))] == blkno @C05
 //@   ensures blkno == 0 ==> len(atxn.freeBnums) == old(len(atxn.freeBnums))
+//@   ensures [F5-prefix] forall k uint64 :: k < old(len(atxn.freeBnums)) ==> atxn.freeBnums[k] == old(atxn.freeBnums[k]) @C05
